@@ -16,9 +16,11 @@ class Ctx:
     def __init__(self, tier, seed):
         self.tier = tier
         self.seed = seed
+        self.active = "mip04"
         self._progs = {}
 
-    def prog(self, config="mip04"):
+    def prog(self, config=None):
+        config = config or self.active
         if config not in self._progs:
             self._progs[config] = ir.Program(extract.load(config))
         return self._progs[config]
@@ -30,8 +32,9 @@ class Ctx:
             self._wit = witness.build()
         return self._wit
 
-    def prog_with_witness(self, config="mip04"):
+    def prog_with_witness(self, config=None):
         """the program facts plus the witness crate's positive-control functions"""
+        config = config or self.active
         key = config + "+witness"
         if key not in self._progs:
             import witness
@@ -44,6 +47,32 @@ class Ctx:
 
     def configs(self):
         return ["mip04"] if self.tier == "quick" else ["mip04", "default", "all"]
+
+
+def selftest(pid, rep):
+    """thorough tier: every self-test mutant (hand-written + confirmed seeded changes) assigned to this property must make the check fire
+    on a scratch copy of /repo.  A survivor is a checker-quality signal recorded in the evidence, never a VIOLATION of mdk."""
+    import subprocess
+    import json as _json
+    import tempfile
+    out = tempfile.mktemp(prefix="selftest-", suffix=".json")
+    env = dict(os.environ)
+    env.pop("MDK_REPO", None)
+    r = subprocess.run([sys.executable, os.path.join(extract.VERIF, "engine", "selftest", "suite.py"), "--only", pid, "-j", "6", "--json", out],
+                       capture_output=True, text=True, env=env)
+    res = []
+    if os.path.exists(out):
+        res = _json.load(open(out))
+        os.remove(out)
+    summ = {}
+    for x in res:
+        summ[x["status"]] = summ.get(x["status"], 0) + 1
+    rep.extra["selftest"] = {"mutants": len(res), "summary": summ, "survivors": [x["name"] for x in res if x["status"] in ("SURVIVED", "partly")],
+                             "skipped": [x["name"] for x in res if x["status"] == "skipped"], "killed": [x["name"] for x in res if x["status"] == "killed"]}
+    print("   self-test: %d mutants %s" % (len(res), summ))
+    for x in res:
+        if x["status"] in ("SURVIVED", "partly", "error"):
+            print("   SELFTEST-SURVIVOR %s: %s" % (x["name"], x["detail"]))
 
 
 def main():
@@ -66,7 +95,12 @@ def main():
     ctx = Ctx(tier, seed)
     rep = report.Report(pid, tier, seed)
     try:
-        mod.run(ctx, rep)
+        for cfg in ctx.configs():
+            ctx.active = cfg
+            rep.begin_config(cfg)
+            mod.run(ctx, rep)
+        if tier == "thorough":
+            selftest(pid, rep)
     except extract.BuildFailed as e:
         print("BUILD FAILED: %s — no verdict" % e)
         return 2
